@@ -344,6 +344,7 @@ def oracle_C10(hi, ops, obs):
         ob = ops['blocks'][j-1]
         prev = obs[j-1]
         only_queue_ops = True; any_success = False
+        admitted = {}
         for (_, sg, m) in successful_leaves(ob, b):
             any_success = True
             if m.kind == 'CREATE':
@@ -352,7 +353,9 @@ def oracle_C10(hi, ops, obs):
             elif m.kind == 'SETPOWER':
                 only_queue_ops = False
                 for q in queue:
-                    if q[0] == m.args[0]: queue.remove(q); break
+                    if q[0] == m.args[0]:
+                        admitted[int(q[0])] = q[2]   # the application as it stood when the admin admitted it
+                        queue.remove(q); break
             elif m.kind == 'RMPENDING':
                 for q in queue:
                     if q[0] == m.args[0]: queue.remove(q); break
@@ -367,12 +370,13 @@ def oracle_C10(hi, ops, obs):
         # admission moves exactly that application into the validator set: a validator that was a pending application after
         # the previous block carries the commission rates and the minimum self-delegation of that application
         if 'vcom' in b:
-            was = dict((int(p[0]), p) for p in (prev.get('pend') or []))
+            # (the application admitted is the one in the queue at that moment: an applicant whose application was removed
+            # may have applied again, with other rates, earlier in the same block)
             # (its operator may edit the fresh validator in the very block of the admission: MsgEditValidator is not disabled)
             edited = set(sg for (_, sg, m) in successful_leaves(ob, b) if m.kind == 'EDIT')
             for op, vc in b['vcom'].items():
-                if op in was and op not in (prev.get('vals') or {}) and op not in edited:
-                    sub = was[op][4].split(',')[5:8]
+                if op in admitted and op not in (prev.get('vals') or {}) and op not in edited:
+                    sub = admitted[op].split(',')[5:8]
                     if vc[:3] != sub or vc[3] != '1':
                         out.append(Viol(hi, b['h'], 'admitted-differs-from-application', f"op {op}: application rates {sub} min-self 1, validator {vc}"))
         ops_seen = [p[0] for p in b['pend']] + [str(o) for o in b['vals']]
